@@ -348,6 +348,9 @@ def run_shard(spec_, res):
             res.digests.add(hash((tuple(w.slots), w.history[-1][0])) & 0xFFFFFFFFFFFF)
         if s == 0:
             res.sample({"start_mask": "".join("x" if b else "." for b in mask), "loaded": loaded, "history": w.history[:8], "final_slots": w.slots})
+    if spec_["tier"] == "thorough" and spec_["shard"] == 0:
+        from ._repo_suite import ambient_under_repo_tests
+        ambient_under_repo_tests(res, PROPERTY, ["index_coherent"])
     for name, msg in monitors.take_failures():
         res.violation(f"C14:ambient:{name}", msg, {"monitor": name})
     res.count("ambient_invariant_evaluations", monitors.COUNTERS.get("index_coherent.evaluations", 0))
